@@ -349,6 +349,15 @@ impl<T: SparseIndex> PartialEq for BitSet<T> {
 
 impl<T: SparseIndex> Eq for BitSet<T> {}
 
+// Verification hooks. Compiled only with `--cfg evenio_verif`.
+#[cfg(evenio_verif)]
+impl<T> BitSet<T> {
+    /// The raw blocks, least significant first.
+    pub(crate) fn verif_blocks(&self) -> Vec<u64> {
+        self.blocks.iter().map(|&b| b as u64).collect()
+    }
+}
+
 #[cfg(test)]
 mod tests {
     use super::*;
